@@ -586,7 +586,70 @@ pub fn run(tier: Tier, started: Instant) -> Vec<Part> {
     part.require("user_locks_granted_while_a_send_is_blocked");
     part.require("terminations_reported");
     part.require("live_probes_passed");
-    vec![part]
+    vec![part, udp_smoke()]
+}
+
+/// Non-deciding smoke of the real UDP transport over loopback: garbage, an oversized send, then a
+/// valid SYN must still be answered. A failure here (no loopback, timeout) is reported as a note
+/// and never changes the verdict.
+pub fn udp_smoke() -> Part {
+    let mut part = Part::new("server/udp-loopback-smoke(non-deciding)");
+    part.rule = "the real gossip server over chitchat::transport::UdpTransport on 127.0.0.1: a 4-byte garbage datagram, a datagram with a valid header and a truncated body, a 65,507-byte datagram of zeros, then a valid SYN which must be answered by a SYN-ACK within 5 s of real time; the outcome is recorded as a note only (real sockets and real time are not owned by the explorer)".into();
+    part.exhaustive = false;
+    part.caps_hit.push("smoke, not an exploration".into());
+    let outcome = std::thread::spawn(|| -> Result<String, String> {
+        let rt = tokio::runtime::Builder::new_current_thread().enable_all().build().map_err(|e| e.to_string())?;
+        rt.block_on(async {
+            let port = 20_000 + (std::process::id() % 20_000) as u16;
+            let addr: SocketAddr = ([127, 0, 0, 1], port).into();
+            let config = ChitchatConfig {
+                chitchat_id: real::to_real_id(&Id::v4("udp", 1, port)),
+                cluster_id: "c".into(),
+                gossip_interval: Duration::from_secs(3600),
+                listen_addr: addr,
+                seed_nodes: vec![],
+                failure_detector_config: FailureDetectorConfig::default(),
+                marked_for_deletion_grace_period: Duration::from_secs(3600),
+                catchup_callback: None,
+                extra_liveness_predicate: None,
+            };
+            let handle = spawn_chitchat(config, vec![], &chitchat::transport::UdpTransport).await.map_err(|e| format!("spawn: {e}"))?;
+            let sock = tokio::net::UdpSocket::bind("127.0.0.1:0").await.map_err(|e| format!("bind: {e}"))?;
+            let _ = sock.send_to(b"junk", addr).await;
+            let valid = real::real_encode(&real::build_real(&Msg::Syn { digest: vec![], cluster_id: "c".into() }).unwrap());
+            let _ = sock.send_to(&valid[..valid.len() - 1], addr).await;
+            let _ = sock.send_to(&vec![0u8; 65_507], addr).await;
+            sock.send_to(&valid, addr).await.map_err(|e| format!("send: {e}"))?;
+            let mut buf = vec![0u8; 65_536];
+            let r = tokio::time::timeout(Duration::from_secs(5), sock.recv_from(&mut buf)).await;
+            let res = match r {
+                Ok(Ok((n, _))) => match crate::codec::decode(&buf[..n]) {
+                    Ok(d) if d.msg.kind() == "synack" => Ok(format!("valid SYN after 3 bad datagrams answered by a SYN-ACK of {n} bytes")),
+                    Ok(d) => Err(format!("answered by a {}", d.msg.kind())),
+                    Err(e) => Err(format!("undecodable answer: {}", e.0)),
+                },
+                Ok(Err(e)) => Err(format!("recv: {e}")),
+                Err(_) => Err("no answer within 5 s".into()),
+            };
+            let _ = handle.shutdown().await;
+            res
+        })
+    })
+    .join()
+    .unwrap_or_else(|_| Err("smoke thread panicked".into()));
+    match outcome {
+        Ok(s) => {
+            part.notes.push(format!("udp smoke ok: {s}"));
+            part.tally.inc("udp_smoke_ok");
+        }
+        Err(e) => part.notes.push(format!("udp smoke inconclusive (not a verdict): {e}")),
+    }
+    part.states = 4;
+    part.transitions = 4;
+    part.executions = 1;
+    part.distinct_nontrivial = 4;
+    part.sample(json!(["junk", "truncated SYN", "65507 zero bytes", "valid SYN"]));
+    part
 }
 
 pub fn replay(v: &Value) -> Result<(), String> {
